@@ -66,3 +66,13 @@ Qed.
 
 Definition uids_okb (m : model) : bool :=
   forallb (fun g => forallb (fun o => negb (Z.eqb (o_uid o) (-1))) (sg_ops g)) (m_subgraphs m).
+
+(* executable check of [names_unique] (soundness: Proofs/NameInv.v) *)
+Fixpoint nodupb {A} (eqb : A -> A -> bool) (l : list A) : bool :=
+  match l with
+  | [] => true
+  | x :: r => negb (existsb (eqb x) r) && nodupb eqb r
+  end.
+Definition name_pair_eqb (a b : Z * list Z) : bool :=
+  Z.eqb (fst a) (fst b) && list_eqb Z.eqb (snd a) (snd b).
+Definition names_uniqueb (g : subgraph) : bool := nodupb name_pair_eqb (map tname (sg_tensors g)).
